@@ -311,10 +311,14 @@ class Server:
         uid = id(fut)
 
         with self._pipeline_notfull:
-            if len(pipeline) >= self._capacity:
+            while len(pipeline) >= self._capacity:
+                # Re-check after every wake-up: another caller may have taken the
+                # freed slot before this one re-acquired the lock.
                 if backpressure:
                     raise ServerBacklogFull(len(pipeline))
-                if not self._pipeline_notfull.wait(timeout * 0.99):
+                if not self._pipeline_notfull.wait(
+                    t0 + timeout * 0.99 - perf_counter()
+                ):
                     raise ServerBacklogFull(len(pipeline), perf_counter() - t0)
 
             # Record the request in the ledger before publishing it: the gather thread
